@@ -1,7 +1,7 @@
 (* C11 — TSQL select equals relational semantics; its condition grammar is unambiguous. *)
 From Coq Require Import List NArith ZArith Bool.
 From PyD Require Import Base.Str Model.Tsdb Model.Tsql Proofs.TsqlP.
-From PyD Require Import Proofs.TsqlStarP.
+From PyD Require Import Proofs.TsqlStarP Proofs.TsqlSelectP.
 Import ListNotations.
 
 (* the hash join computes exactly the nested-loop inner join on the cast key
@@ -60,3 +60,24 @@ Theorem C11_star_projection : forall d rels qs, project_all d rels = Some qs ->
      cnt k qs <= 1).
 Proof. exact project_all_spec. Qed.
 Print Assumptions C11_star_projection.
+
+(* the evaluator is project . filter . join: given the join plan, the rows
+   returned are exactly the joined rows on which the condition evaluates to
+   true, in order and with their multiplicities, projected to the requested
+   columns; the condition is evaluated on every joined row *)
+Theorem C11_select_is_project_filter_join : forall d o plan proj rc out,
+  run_select d o plan proj (Some rc) = Some out ->
+  exists s idxs, joined_of d plan = Some (Some s) /\
+    seqo (map (sel_index (s_cols s)) proj) = Some idxs /\
+    (forall row, In row (s_rows s) -> eval o (s_cols s) row rc <> None) /\
+    out = map (fun row => map (nth_raw row) idxs) (filter (holds o (s_cols s) rc) (s_rows s)).
+Proof. exact run_select_spec. Qed.
+Print Assumptions C11_select_is_project_filter_join.
+
+Theorem C11_select_without_condition : forall d o plan proj out,
+  run_select d o plan proj None = Some out ->
+  exists s idxs, joined_of d plan = Some (Some s) /\
+    seqo (map (sel_index (s_cols s)) proj) = Some idxs /\
+    out = map (fun row => map (nth_raw row) idxs) (s_rows s).
+Proof. exact run_select_all. Qed.
+Print Assumptions C11_select_without_condition.
